@@ -1486,6 +1486,9 @@ func (self *Node) nodeAt(i int) *Node {
 	} else {
 		p = (*linkedNodes)(self.p)
 		if l := p.Len(); l != self.len() {
+			if i < 0 {
+				return nil
+			}
 			// some nodes got unset, iterate to skip them
 			for j := 0; j < l; j++ {
 				v := p.At(j)
@@ -1510,6 +1513,9 @@ func (self *Node) pairAt(i int) *Pair {
 	} else {
 		p = (*linkedPairs)(self.p)
 		if l := p.Len(); l != self.len() {
+			if i < 0 {
+				return nil
+			}
 			// some nodes got unset, iterate to skip them
 			for j := 0; j < l; j++ {
 				v := p.At(j)
